@@ -35,6 +35,12 @@ pub enum TabOp {
     RegisterAnnounced(u8),
     Get(u32),
     Finish,
+    /// protocol-following client: register the pool value with every id it
+    /// mentions replaced by an id the builder has handed out before
+    RegisterDisciplined(u8),
+    /// the documented self-reference protocol in one step: read
+    /// `next_type_id()`, register a (disciplined) value that also refers to it
+    RegisterSelfRef(u8),
 }
 
 #[derive(Clone, PartialEq, Eq, Debug, Hash, Serialize, Deserialize)]
@@ -55,6 +61,10 @@ pub struct TabScenario {
     /// which element type the interner script runs on: 0 = u8, 1 = String, 2 = Type
     pub interner_kind: u8,
     pub interner_ops: Vec<IntOp>,
+    /// every client follows the protocol: values mention only ids the builder
+    /// returned or announced; then `finish()` must be closed (C01)
+    #[serde(default)]
+    pub disciplined: bool,
 }
 
 // ---------------------------------------------------------------------------
@@ -177,8 +187,21 @@ pub fn generate(rng: &mut Rng) -> TabScenario {
     }
     let n_ops = rng.range(1, cfg.ops as u64);
     let mut ops = Vec::new();
+    let disciplined = rng.permille(300);
     for _ in 0..n_ops {
         let client = rng.below(cfg.clients as u64) as u8;
+        if disciplined {
+            let k = rng.below(cfg.pool_size as u64) as u8;
+            let op = match rng.weighted(&[45, 25, 10, 12, 8]) {
+                0 => TabOp::RegisterDisciplined(k),
+                1 => TabOp::RegisterSelfRef(k),
+                2 => TabOp::NextId,
+                3 => TabOp::Get(rng.below(near as u64) as u32),
+                _ => TabOp::Finish,
+            };
+            ops.push((client, op));
+            continue;
+        }
         let op = match rng.weighted(&[40, 8, 10, 10, 12, 15, 0]) {
             0 if rng.permille(cfg.fresh) => {
                 TabOp::RegisterFresh(gen_ptype(rng, &cfg.strs, near, cfg.big_ids))
@@ -213,7 +236,7 @@ pub fn generate(rng: &mut Rng) -> TabScenario {
             }
         })
         .collect();
-    TabScenario { cfg, pool: pool_v, ops, interner_kind, interner_ops }
+    TabScenario { cfg, pool: pool_v, ops, interner_kind, interner_ops, disciplined }
 }
 
 // ---------------------------------------------------------------------------
@@ -272,6 +295,8 @@ fn run_builder(scn: &TabScenario, mask: Mask, res: &mut TabResult) -> Check {
     let mut model: Model<PType> = Model { v: Vec::new() };
     let mut announced = vec![None::<u32>; 256];
     let mut dup_after_unrelated = false;
+    // ids the builder has returned so far (disciplined runs)
+    let mut handed: Vec<u32> = Vec::new();
     for (k, (client, op)) in scn.ops.iter().enumerate() {
         probe("events.builder_call");
         let mut register = |b: &mut PortableRegistryBuilder,
@@ -346,6 +371,26 @@ fn run_builder(scn: &TabScenario, mask: Mask, res: &mut TabResult) -> Check {
                     probe("reach.builder_self_reference_deduplicated_to_older_index");
                 }
             }
+            TabOp::RegisterDisciplined(i) | TabOp::RegisterSelfRef(i) => {
+                let base = &scn.pool[*i as usize % scn.pool.len()];
+                let n_handed = handed.len();
+                let mut v = if n_handed == 0 {
+                    PType { path: base.path.clone(), params: vec![], def: PDef::Primitive(0), docs: base.docs.clone() }
+                } else {
+                    base.map_ids(&mut |x| handed[x as usize % n_handed])
+                };
+                if matches!(op, TabOp::RegisterSelfRef(_)) {
+                    let a = b.next_type_id();
+                    v = with_announced(&v, a);
+                    probe("reach.builder_self_reference_protocol");
+                }
+                register(&mut b, &mut model, &v, "disciplined")?;
+                // what the builder returned is what the client may mention later
+                let id = model.find(&v).expect("just registered") as u32;
+                if !handed.contains(&id) {
+                    handed.push(id);
+                }
+            }
             TabOp::Get(id) => {
                 let got = b.get(*id).map(PType::from_lib);
                 let want = model.v.get(*id as usize).cloned();
@@ -380,9 +425,19 @@ fn run_builder(scn: &TabScenario, mask: Mask, res: &mut TabResult) -> Check {
                             p.types.iter().zip(&want.types).position(|(a, b)| a != b)
                         )
                     })?;
-                    fail(mask, "C01", "builder_finish.not_the_registered_values", || {
-                        format!("op {}: finish() differs from what was registered", k)
-                    })?;
+                }
+                // clients that only ever mentioned ids the builder returned or
+                // announced must get a closed registry
+                if scn.disciplined {
+                    if let Some((i, id)) = p.first_dangling() {
+                        fail(mask, "C01", "closed.builder_finish", || {
+                            format!(
+                                "op {}: entry {} mentions id {} but finish() has {} entries, although every client followed the next_type_id protocol",
+                                k, i, id, p.len()
+                            )
+                        })?;
+                    }
+                    probe("checks.builder_finish_closed_for_disciplined_clients");
                 }
                 // resolve agrees with position
                 for (i, (id, _)) in p.types.iter().enumerate() {
@@ -453,8 +508,19 @@ fn run_interner<T: Ord + Clone + std::fmt::Debug>(
             }
             IntOp::Resolve(i) => {
                 let v = &values[*i as usize % values.len()];
-                let sym = donor.get(v).expect("donor knows every pool value");
                 let idx = donor_model.find(v).unwrap();
+                let Some(sym) = donor.get(v) else {
+                    fail(mask, "C12", "interner.get_of_interned_value", || {
+                        format!("op {}: get({:?}) is none on an interner that interned it as #{}", k, v, idx)
+                    })?;
+                    continue;
+                };
+                let donor_id = donor.get(v).map(|s| s.into_untracked().id as usize);
+                if donor_id != Some(idx) {
+                    fail(mask, "C12", "interner.get_of_interned_value", || {
+                        format!("op {}: get({:?}) = {:?} on an interner that interned it as #{}", k, v, donor_id, idx)
+                    })?;
+                }
                 let got = it.resolve(sym).cloned();
                 let want = model.v.get(idx).cloned();
                 if got != want {
